@@ -17,7 +17,7 @@ if ! timeout 600 cargo kani --only-codegen > "$LOGDIR/build.log" 2>&1; then
 fi
 # long-running ones first so that the concurrent slots are used well
 ALL="i128_div_is_rust_div_unfinished i128_rem_is_rust_rem_unfinished i128_checked_pow_step_unfinished u32_div_ceil_unfinished
-     i128_checked_pow_exp_le2 i16_div_is_rust_div i16_rem_is_rust_rem i16_checked_pow_step u16_div_ceil
+     i128_checked_pow_exp_le2 i16_div_is_rust_div i16_rem_is_rust_rem_unfinished i16_checked_pow_step u16_div_ceil_unfinished
      i64_mul_exact i64_mul_overflow_never_returns u32_overflow_never_returns i8_checked_pow_step u32_add_sub_mul_exact
      option_is_some_and option_is_none_or option_filter option_inspect option_map_or option_unwrap
      option_unwrap_none_never_returns result_unwrap_or_else bound_cloned slice_ne_array_u8_bounded
